@@ -97,11 +97,24 @@ func genSummaryArgs(r *core.Rand, c *MCmd) {
 	}
 }
 
-var mTrackValues = []string{"1h", "30m", "-15m", "2h30m", "+45m", "0m", "8:00 - 9:00", "8:00-9:00", "13:00 - 14:30", "<23:00 - 1:00", "22:00 - 0:30>", "9:00am - 10:00am", "15:00 - ?", "7:00-???", "90m", "24:00 - 24:00"}
+var mTrackValues = []string{"8:00 - 8:00", "12:00-12:00", "1h", "30m", "-15m", "2h30m", "+45m", "0m", "8:00 - 9:00", "8:00-9:00", "13:00 - 14:30", "<23:00 - 1:00", "22:00 - 0:30>", "9:00am - 10:00am", "15:00 - ?", "7:00-???", "90m", "24:00 - 24:00"}
 var mBadTrack = []string{"garbage", "1h60m", "8:00 - 7:00", " 1h", "25:00 - 26:00", "2020-01-01", "1x", "8:00 -", "- 1h", "?"}
 
 // genCommand draws one mutating command for the current (model) state.
 func genCommand(r *core.Rand, doc *ref.Doc, env MEnv, allowPause bool) MCmd {
+	c := genCommand0(r, doc, env, allowPause)
+	c.Warn = r.Bool()
+	if r.Chance(1, 60) && len(c.Summary) > 0 {
+		// a summary line that is a bare carriage return: accepted by the argument decoder, but written to the file it reads as a CRLF blank line
+		c.Summary = append(append([]string{c.Summary[0]}, "\r"), c.Summary[1:]...)
+		if len(c.Summary) == 2 {
+			c.Summary = append(c.Summary, "after the blank")
+		}
+	}
+	return c
+}
+
+func genCommand0(r *core.Rand, doc *ref.Doc, env MEnv, allowPause bool) MCmd {
 	var c MCmd
 	kinds := []string{"track", "track", "start", "start", "stop", "stop", "switch", "create"}
 	if allowPause {
